@@ -35,7 +35,7 @@ const commonNote = "Trusted base: Go toolchain and math/big (oracle arithmetic),
 
 var props = map[string]*propCfg{
 	"C01": {
-		Rule:        "Cases are a pure function of (VERIF_SEED, case index): operation in {Add,Sub,Mul,Quo,Set,SetPrec,Neg,Abs} x operand shapes (exponent gaps 0/1/18/19/20/p/p+-1/sticky-only, sums and products and exact quotients constructed to land on ties / just beside ties / all-nines carries, massive cancellation, equal and negated operands, both ends of the int32 exponent range, zero operands, near-equal leading words for quotient-digit correction, squares through one variable) x precision (1..40 dense, word boundaries, digit count of the exact result +-3, MaxPrec) x six modes. Every case is executed on a fresh receiver and judged by two independent models (round-once in big.Int; definition of correct rounding by magnitude comparisons). A case is non-trivial when the exact result is not representable at the receiver's precision or leaves the exponent range (rounding or saturation actually happened); distinct = distinct 64-bit hashes of (op, operands, precision, mode) among those. Added in later rounds: operand and receiver precisions from the top of the uint32 range (4 in 100 operands; receivers of Add/Sub/Mul/Set/Neg/Abs), underflow by cancellation at the bottom of the range, divisors 10^k/1/2/4/5/8/25 with dividends at the range ends, 500..1400-digit factors at the range ends, B/k and binary-boundary edge words, and two directed cases per run with operands 2^31+ digits apart (one effective addition, one subtraction; both models judge the surrogate 'large operand plus a non-zero value far below the rounding position').",
+		Rule:        "Cases are a pure function of (VERIF_SEED, case index): operation in {Add,Sub,Mul,Quo,Set,SetPrec,Neg,Abs} x operand shapes (exponent gaps 0/1/18/19/20/p/p+-1/sticky-only, sums and products and exact quotients constructed to land on ties / just beside ties / all-nines carries, massive cancellation, equal and negated operands, both ends of the int32 exponent range, zero operands, near-equal leading words for quotient-digit correction, squares through one variable) x precision (1..40 dense, word boundaries, digit count of the exact result +-3, MaxPrec) x six modes. Every case is executed on a fresh receiver and judged by two independent models (round-once in big.Int; definition of correct rounding by magnitude comparisons). A case is non-trivial when the exact result is not representable at the receiver's precision or leaves the exponent range (rounding or saturation actually happened); distinct = distinct 64-bit hashes of (op, operands, precision, mode) among those. Added in later rounds: operand and receiver precisions from the top of the uint32 range (4 in 100 operands; receivers of Add/Sub/Mul/Set/Neg/Abs), underflow by cancellation at the bottom of the range, divisors 10^k/1/2/4/5/8/25 with dividends at the range ends, 500..1400-digit factors at the range ends, B/k and binary-boundary edge words, and two directed cases per run with operands 2^31+ digits apart (one effective addition, one subtraction; both models judge the surrogate 'large operand plus a non-zero value far below the rounding position'). Round 7: products (and same-variable squares) that lie right next to a rounding-aimed value T - x*y = T x 10^s -+ less than x, y or x = y obtained by division or square root, operands of 20..1 500 digits, precisions to 1 500 - so that the side of T is decided by the lowest words of both operands; 3 in 100 finite operands everywhere are held in a mantissa longer than their precision needs (zero low words, as a decoded gob payload leaves them).",
 		Assumptions: []string{"operand exponent gaps are capped (2 000 digits quick, 200 000 thorough) because the library materialises the shift", "operands are built with SetBitsExp+Neg and verified by read-back before use", "receiver precision >= 1 (precision 0 belongs to C09)"},
 		Floors:      []floor{{"Add/", 1000}, {"Sub/", 1000}, {"Mul/", 1000}, {"Quo/", 1000}, {"Set/", 200}, {"SetPrec/", 200}, {"Neg/", 200}, {"Abs/", 200}, {"Quo/exact-quotient", 500}, {"Add/sum-aimed", 300}, {"oracle_selftest_cases", 1000}},
 		LevelText:   "Runtime monitoring: every generated call of the real library is compared with an exact big-integer reference by two independent oracles; assurance is 'held on the N executions listed in the evidence', with generators aimed at the rounding structure (ties, carries, word boundaries, range ends) that uniform tests do not reach.",
@@ -43,7 +43,7 @@ var props = map[string]*propCfg{
 		DesignRef:   "DESIGN.md §4 C01",
 	},
 	"C03": {
-		Rule:        "Cases: FMA triples built so that u lies within +-(p+3) digits of the product's leading digit, far below / far above it (sticky only), u = -(x*y rounded to k digits) for random k (cancellation leaving 0..all digits, incl. exactly zero sums), sums constructed to land on ties and all-nines carries, zero products and zero addends of both signs, infinities, products at both ends of the exponent range; x 15 sharing patterns of {z,x,y,u} (45% distinct variables) x precision x six modes. Judged by both oracle models on the exact x*y+u (value and accuracy), plus: receiver attributes unchanged, operands not sharing the receiver unmodified. Non-trivial = single rounding differs from Mul-then-Add by the oracle (value or accuracy); distinct = hashes of (operands, precision, mode, sharing pattern). Added in later rounds: underflow by cancellation, tail-cancel addends, operand precisions from the top of the range; the known finding D15 is matched by class and outcome (fmaKnownOutcome).",
+		Rule:        "Cases: FMA triples built so that u lies within +-(p+3) digits of the product's leading digit, far below / far above it (sticky only), u = -(x*y rounded to k digits) for random k (cancellation leaving 0..all digits, incl. exactly zero sums), sums constructed to land on ties and all-nines carries, zero products and zero addends of both signs, infinities, products at both ends of the exponent range; x 15 sharing patterns of {z,x,y,u} (45% distinct variables) x precision x six modes. Judged by both oracle models on the exact x*y+u (value and accuracy), plus: receiver attributes unchanged, operands not sharing the receiver unmodified. Non-trivial = single rounding differs from Mul-then-Add by the oracle (value or accuracy); distinct = hashes of (operands, precision, mode, sharing pattern). Added in later rounds: underflow by cancellation, tail-cancel addends, operand precisions from the top of the range; the known finding D15 is matched by class and outcome (fmaKnownOutcome). Round 7: addends that are a power of ten (or one digit) of the opposite sign p-2..p+3 places above the product's leading digit (the subtraction borrows out of the leading digit); zero addends of either sign under products at and far beyond both ends of the exponent range.",
 		Assumptions: []string{"gap between the exact product and u capped like C01's addend gap", "operands sharing the receiver are given values that fit the receiver's precision (otherwise they could not be that variable)", "cases whose exact product x*y leaves the exponent range are known finding D15 (predicate fma_product_exponent_out_of_range) and reported as such"},
 		Floors:      []floor{{"FMA/u-near", 5000}, {"FMA/cancel", 5000}, {"FMA/cancel-to-zero", 1000}, {"FMA/zeros", 1000}, {"FMA/infinities", 1000}, {"FMA/sum-aimed", 2000}, {"shape/z=u", 500}, {"shape/z=x=y=u", 500}, {"fma_differs_from_mul_then_add", 2000}},
 		LevelText:   "Runtime monitoring of FMA against the exact x*y+u in big integers under all 15 sharing patterns; evidence counts how many cases the single rounding actually mattered.",
@@ -51,7 +51,7 @@ var props = map[string]*propCfg{
 		DesignRef:   "DESIGN.md §4 C03",
 	},
 	"C05": {
-		Rule:        "Cases: perfect squares s^2 (s of 1..80 digits, some to 1 500) and s^2+-1, at receiver precision digits(s)+{-3,-1,0,1,2,20}; roots that are exactly a rounding midpoint ((m+1/2)^2) or lie a few units of a far lower place beside a midpoint or beside a representable value; x a few units of its last place below / above a power of ten (the root crosses a decade) at small precisions; odd and even exponents (incl. negative odd), exponents at both ends of the int32 range; random x with more / as many / fewer digits than the receiver; Sqrt(+0), Sqrt(-0), Sqrt(+Inf) for every mode; 25% with the receiver being the operand. Oracle: integer square root in big.Int + sticky, rounded once (model #1) and the definition check s^2 vs x on candidate neighbours (model #2). After the call the receiver's precision and mode must be what they were and a distinct operand must be bit-identical. Non-trivial = the exact root is not representable at the receiver's precision; distinct = hashes of (x, precision, mode, sharing). Added in later rounds: short perfect squares at 900..2600 digits, operand precisions from the top of the range.",
+		Rule:        "Cases: perfect squares s^2 (s of 1..80 digits, some to 1 500) and s^2+-1, at receiver precision digits(s)+{-3,-1,0,1,2,20}; roots that are exactly a rounding midpoint ((m+1/2)^2) or lie a few units of a far lower place beside a midpoint or beside a representable value; x a few units of its last place below / above a power of ten (the root crosses a decade) at small precisions; odd and even exponents (incl. negative odd), exponents at both ends of the int32 range; random x with more / as many / fewer digits than the receiver; Sqrt(+0), Sqrt(-0), Sqrt(+Inf) for every mode; 25% with the receiver being the operand. Oracle: integer square root in big.Int + sticky, rounded once (model #1) and the definition check s^2 vs x on candidate neighbours (model #2). After the call the receiver's precision and mode must be what they were and a distinct operand must be bit-identical. Non-trivial = the exact root is not representable at the receiver's precision; distinct = hashes of (x, precision, mode, sharing). Added in later rounds: short perfect squares at 900..2600 digits, operand precisions from the top of the range. Round 7: one- and two-word operands made of edge words (B-1, B/2, B/k, 2^63, 2^62, 2^64-B, 2^32) at any exponent parity.",
 		Assumptions: []string{"operand lengths are capped at 700 digits quick / 3 000 thorough (Newton iteration cost)", "Acc() after Sqrt is not part of the statement and is not judged"},
 		Floors:      []floor{{"Sqrt/perfect-square", 3000}, {"Sqrt/root-is-tie", 3000}, {"Sqrt/root-just-above-tie", 2000}, {"Sqrt/root-just-below-tie", 2000}, {"Sqrt/root-just-above-representable", 2000}, {"Sqrt/root-just-below-representable", 2000}, {"Sqrt/special", 50}, {"Sqrt/just-below-power-of-ten", 3000}, {"mode/ToNegativeInf", 5000}, {"mode/AwayFromZero", 5000}},
 		LevelText:   "Runtime monitoring of Sqrt against the integer square root with cases constructed at the rounding boundaries (exact ties, perfect squares, neighbours one unit of a far lower place away), where an approximate Newton result is wrong.",
@@ -83,7 +83,7 @@ var props = map[string]*propCfg{
 		DesignRef:   "DESIGN.md §4 C06",
 	},
 	"C07": {
-		Rule:        "Part A (kernel twins): for each of the 12 decimal kernels and divWVW, inputs inside the precondition (words < base; dividend high word < divisor; shift 0..18; equal lengths except the add/sub kernels, whose sources may be longer than the destination as in u[j:]), lengths 0..70 (every residue mod 4, the >=4 fast paths and memcpy exits), edge words (0, 1, base-1, base/2, powers of ten, all-nines and all-zero vectors), the overlap shapes the library uses (z==x in place, z==y, z==x==y, shl with z above x, shr with z below x). Operands are carved out of mmap'ed arenas whose neighbouring pages are PROT_NONE (flush against the upper or the lower guard page) or surrounded by canary words; the selected implementation (assembly in the default build), the portable _g twin and a big.Int definition must agree on the output vector and the returned word; sources must be unchanged; words of an in-place operand beyond len(z) untouched. Part B (transcripts): every shard runs a deterministic program of public operations (arithmetic, Sqrt, setters, parse/format, conversions, gob/text round trips over 8 variables) and records SHA-256 digests per 250 steps; the driver requires identical digests from the workers built with tags {verif}, {verif,decimal_pure_go}, {verif,math_big_pure_go}, {verif,decimal_pure_go,math_big_pure_go} (thorough: also go1.26.8). Non-trivial = vector length > 0. Added in later rounds: 1 kernel case in 3000 uses vectors of 4095..20000 words in 20480-word guard-page arenas, with carries/borrows that ripple through every word; 6 in 100 place two buffers at addresses exactly 4 GiB apart (far pair); word pairs from the binary-boundary set.",
+		Rule:        "Part A (kernel twins): for each of the 12 decimal kernels and divWVW, inputs inside the precondition (words < base; dividend high word < divisor; shift 0..18; equal lengths except the add/sub kernels, whose sources may be longer than the destination as in u[j:]), lengths 0..70 (every residue mod 4, the >=4 fast paths and memcpy exits), edge words (0, 1, base-1, base/2, powers of ten, all-nines and all-zero vectors), the overlap shapes the library uses (z==x in place, z==y, z==x==y, shl with z above x, shr with z below x). Operands are carved out of mmap'ed arenas whose neighbouring pages are PROT_NONE (flush against the upper or the lower guard page) or surrounded by canary words; the selected implementation (assembly in the default build), the portable _g twin and a big.Int definition must agree on the output vector and the returned word; sources must be unchanged; words of an in-place operand beyond len(z) untouched. Part B (transcripts): every shard runs a deterministic program of public operations (arithmetic, Sqrt, setters, parse/format, conversions, gob/text round trips over 8 variables) and records SHA-256 digests per 250 steps; the driver requires identical digests from the workers built with tags {verif}, {verif,decimal_pure_go}, {verif,math_big_pure_go}, {verif,decimal_pure_go,math_big_pure_go} (thorough: also go1.26.8). Non-trivial = vector length > 0. Added in later rounds: 1 kernel case in 3000 uses vectors of 4095..20000 words in 20480-word guard-page arenas, with carries/borrows that ripple through every word; 6 in 100 place two buffers at addresses exactly 4 GiB apart (far pair); word pairs from the binary-boundary set. Round 7: every vector kernel is also called on 65 537 .. 139 000 words (a fixed share of the cases per kernel, arenas of 139 264 words); beyond 20 000 words the selected kernel is compared with its portable twin only (the definition is quadratic there).",
 		Assumptions: []string{"inputs outside a kernel's precondition are never generated (e.g. shl/shr/mulAdd/addMul/div kernels are only called with len(x) == len(z) by the library)", "a read past a slice is only detected for operands flush against a guard page (one third of the placements); writes are also detected by canaries", "receiver contents after an error or an ErrNaN panic are undefined and excluded from the transcript line"},
 		Floors:      []floor{{"kernel/add10VV", 15000}, {"kernel/shl10VU", 15000}, {"kernel/div10VWW", 15000}, {"kernel/divWVW", 15000}, {"kernel/mul10WW", 15000}, {"shape/1", 20000}, {"shape/4", 2000}, {"transcript_steps", 70000}, {"transcript_chunk_digests_compared", 300}},
 		Variants: []variant{
@@ -130,7 +130,7 @@ var props = map[string]*propCfg{
 		DesignRef:   "DESIGN.md §4 C14",
 	},
 	"C15": {
-		Rule:        "SetFloat64 (30%): float64 bit patterns (uniform bits, subnormals, powers of two +-1 ulp, extremes, short binary fractions, decimal-looking values, +-0, +-Inf, NaN) at precision 0 (-> 17), 1..40 and 700..800 (holds every float64 expansion): sign kept, zeros/infinities mapped to themselves, NaN => ErrNaN, exact whenever MinPrec(expansion) <= precision, otherwise at most one unit in the last place from RoundOnce(exact). SetFloat (15%): big.Float of 1..2 000 bits, binary exponents to +-3 000 (thorough +-100 000), +-0 and +-Inf: same rules with a 64-unit bound; argument unchanged. Float64/Float32 (40%): Decimals on the float grid, at exact midpoints of adjacent floats, and those nudged by a relative 10^-3..10^-60; values around both ends of each format's range and at astronomically large exponents; zeros, infinities: the returned value must be the float nearest to x (big.Rat.Float64/Float32 on the exact rational, range alone beyond |exponent| 400) and the accuracy sign(returned - x). Float (15%): result precision as documented, within 64 binary units of x, special values. Non-trivial = finite inputs. Added in later rounds: receivers at MaxPrec, dirty Float destinations, Float beyond big.Float's exponent range, over-wide big.Floats, short decimal integers c x 10^n, float64 look-alikes at the ends of the double's range, thousands of digits into thousands of bits, precision-0 zeros; the accuracy of Float64/Float32 is judged against the returned value for every finite input.",
+		Rule:        "SetFloat64 (30%): float64 bit patterns (uniform bits, subnormals, powers of two +-1 ulp, extremes, short binary fractions, decimal-looking values, +-0, +-Inf, NaN) at precision 0 (-> 17), 1..40 and 700..800 (holds every float64 expansion): sign kept, zeros/infinities mapped to themselves, NaN => ErrNaN, exact whenever MinPrec(expansion) <= precision, otherwise at most one unit in the last place from RoundOnce(exact). SetFloat (15%): big.Float of 1..2 000 bits, binary exponents to +-3 000 (thorough +-100 000), +-0 and +-Inf: same rules with a 64-unit bound; argument unchanged. Float64/Float32 (40%): Decimals on the float grid, at exact midpoints of adjacent floats, and those nudged by a relative 10^-3..10^-60; values around both ends of each format's range and at astronomically large exponents; zeros, infinities: the returned value must be the float nearest to x (big.Rat.Float64/Float32 on the exact rational, range alone beyond |exponent| 400) and the accuracy sign(returned - x). Float (15%): result precision as documented, within 64 binary units of x, special values. Non-trivial = finite inputs. Added in later rounds: receivers at MaxPrec, dirty Float destinations, Float beyond big.Float's exponent range, over-wide big.Floats, short decimal integers c x 10^n, float64 look-alikes at the ends of the double's range, thousands of digits into thousands of bits, precision-0 zeros; the accuracy of Float64/Float32 is judged against the returned value for every finite input. Round 7: big.Floats of 2 000 .. 140 000 bits (short mantissas) for SetFloat; the precision a precision-0 receiver is given is compared with the exact count of digits of 2^Prec(), not with a float64 formula.",
 		Assumptions: []string{"'a few dozen units' (SetFloat, Float) is read as 64 units in the last place: a drift alarm, not a tight specification", "big.Float binary exponents are capped (oracle cost): +-3 000 quick, +-100 000 thorough", "Float64/Float32 results for x within 2^-8 ulp (float64) / 2^-5 ulp (float32) of a multiple of half the format's spacing are known finding D12 as far as the returned VALUE is concerned (double rounding through a 64/32-bit big.Float may return the second-nearest value at a midpoint); everything outside that band is a violation, and the accuracy is judged for every finite input against the value that was returned"},
 		Floors:      []floor{{"SetFloat64/", 30000}, {"setfloat64_exactly_representable", 3000}, {"SetFloat/finite", 10000}, {"Float64/midpoint", 5000}, {"Float32/midpoint", 2000}, {"tofloat_outside_double_rounding_band", 10000}, {"tofloat_accuracy_judged_against_returned_value", 50000}, {"Float/finite", 10000}, {"Float64/range-edge", 3000}},
 		LevelText:   "Runtime monitoring of the binary conversions against exact rationals (big.Rat) with inputs constructed on and beside the float grid.",
@@ -138,7 +138,7 @@ var props = map[string]*propCfg{
 		DesignRef:   "DESIGN.md §4 C15",
 	},
 	"C16": {
-		Rule:        "Triples (a, b, c): a random (1..120 digits, exponents incl. both range ends, zeros, infinities), b related to a (equal; negated; last digit +-1; same value with a longer mantissa +-1 in a far lower place; exponent +-1; equal with trailing zeros moved into the exponent; unrelated), c related to b or random. Each value is built through a different route (raw words with extra low zero words, parser at a larger precision, arithmetic result, a receiver that held a 100..400-digit value before, plain) with random precision, mode and accuracy history. All nine Cmp results must equal the sign of the exact difference (class, then leading-digit exponent, then aligned coefficients), be antisymmetric, and the library's own answers must sort transitively; Sign, Signbit, IsZero, IsInf must agree; operands unchanged. Non-trivial = b related to a. Added in later rounds: precisions from the top of the range on any route, values related by whole words (extra low words from the binary-boundary set, +-d in two words).",
+		Rule:        "Triples (a, b, c): a random (1..120 digits, exponents incl. both range ends, zeros, infinities), b related to a (equal; negated; last digit +-1; same value with a longer mantissa +-1 in a far lower place; exponent +-1; equal with trailing zeros moved into the exponent; unrelated), c related to b or random. Each value is built through a different route (raw words with extra low zero words, parser at a larger precision, arithmetic result, a receiver that held a 100..400-digit value before, plain) with random precision, mode and accuracy history. All nine Cmp results must equal the sign of the exact difference (class, then leading-digit exponent, then aligned coefficients), be antisymmetric, and the library's own answers must sort transitively; Sign, Signbit, IsZero, IsInf must agree; operands unchanged. Non-trivial = b related to a. Added in later rounds: precisions from the top of the range on any route, values related by whole words (extra low words from the binary-boundary set, +-d in two words). Round 7: a sixth route builds a value in a mantissa 1..9 words longer than its precision needs (zero low words; the shape GobDecode leaves when a payload carries them).",
 		Assumptions: []string{"values are constructed through public setters and verified by read-back before use"},
 		Floors:      []floor{{"pair/equal", 5000}, {"pair/last-digit", 5000}, {"pair/longer-mantissa", 5000}, {"pair/equal-trailing-zeros", 5000}, {"route/low-zero-words", 20000}, {"comparisons", 1000000}},
 		LevelText:   "Runtime monitoring of Cmp against the exact order on pairs constructed to be equal up to representation or to differ in the last place only.",
@@ -146,7 +146,7 @@ var props = map[string]*propCfg{
 		DesignRef:   "DESIGN.md §4 C16",
 	},
 	"C12": {
-		Rule:        "Decimal literals (35%): generated from a digit string (1..6 000 digits, rounding-aimed or patterned, leading/trailing zeros, all zeros), a radix point anywhere, an exponent to both ends of the int32 range, rendered plainly and with '_' separators, through Parse(s,10), Parse(s,0), SetString, ParseDecimal, UnmarshalText and fmt.Sscan; receiver precision 0 (-> 34), 1..45 or digit count +-3, six modes, dirty receivers: value and accuracy against the exact literal value by both oracle models, reported base, resulting precision and mode. Binary literals (20%): 0b/0o/0x mantissas with optional fraction and optional p exponent, decimal mantissas with a p exponent: exact value m x 2^k; stored exactly when its decimal expansion fits the precision, otherwise within one unit of the correctly rounded value; detected base. Exponent range (10%): non-zero and zero mantissas with exponents within 400 (sometimes 200 000) of +-2^31, 2^32, 2^63, 2^64, k*2^64, 2^65 and 11..30-digit exponents, with sign and leading-zero variants: accepted exactly when the exponent text fits an int64 and the leading digit's exponent (computed in big.Int) lies in [MinExp, MaxExp], then stored exactly-then-rounded; rejected with a nil result otherwise. Language (40%): token soup, mutated and truncated literals, literals with trailing garbage, x bases {0,2,8,10,16}: no entry point may panic; a failed call returns a nil *Decimal; an accepted one leaves a canonical value; acceptance and detected base must equal big.Float.Parse for literals whose exponent magnitude is <= 10^4 (beyond that math/big's binary exponent range differs). Every case is non-trivial. Added in later rounds: SetString/ParseDecimal/UnmarshalText must agree with Parse (acceptance and state), foreign spellings (null, <nil>, ...), Sscanf with every floating-point verb, binary exponents around and beyond +-2^31/2^32/2^63/2^64, mixed-base literals (0b/0o mantissa with a fraction and a decimal exponent) aimed at both ends of the range and at rounding carries, ParseDecimal precisions beyond 2^32, binary literals into receivers at the top of the precision range.",
+		Rule:        "Decimal literals (35%): generated from a digit string (1..6 000 digits, rounding-aimed or patterned, leading/trailing zeros, all zeros), a radix point anywhere, an exponent to both ends of the int32 range, rendered plainly and with '_' separators, through Parse(s,10), Parse(s,0), SetString, ParseDecimal, UnmarshalText and fmt.Sscan; receiver precision 0 (-> 34), 1..45 or digit count +-3, six modes, dirty receivers: value and accuracy against the exact literal value by both oracle models, reported base, resulting precision and mode. Binary literals (20%): 0b/0o/0x mantissas with optional fraction and optional p exponent, decimal mantissas with a p exponent: exact value m x 2^k; stored exactly when its decimal expansion fits the precision, otherwise within one unit of the correctly rounded value; detected base. Exponent range (10%): non-zero and zero mantissas with exponents within 400 (sometimes 200 000) of +-2^31, 2^32, 2^63, 2^64, k*2^64, 2^65 and 11..30-digit exponents, with sign and leading-zero variants: accepted exactly when the exponent text fits an int64 and the leading digit's exponent (computed in big.Int) lies in [MinExp, MaxExp], then stored exactly-then-rounded; rejected with a nil result otherwise. Language (40%): token soup, mutated and truncated literals, literals with trailing garbage, x bases {0,2,8,10,16}: no entry point may panic; a failed call returns a nil *Decimal; an accepted one leaves a canonical value; acceptance and detected base must equal big.Float.Parse for literals whose exponent magnitude is <= 10^4 (beyond that math/big's binary exponent range differs). Every case is non-trivial. Added in later rounds: SetString/ParseDecimal/UnmarshalText must agree with Parse (acceptance and state), foreign spellings (null, <nil>, ...), Sscanf with every floating-point verb, binary exponents around and beyond +-2^31/2^32/2^63/2^64, mixed-base literals (0b/0o mantissa with a fraction and a decimal exponent) aimed at both ends of the range and at rounding carries, ParseDecimal precisions beyond 2^32, binary literals into receivers at the top of the precision range. Round 7: mixed-base literals also with sparse mantissas 1.000...0001 (20..110 digits) at the ends of the range; a mixed-base literal whose exact value lies above the exponent range must be rejected like its decimal spelling (only a value inside the range whose rounding carries out becomes an infinity).",
 		Assumptions: []string{"Scan (fmt) accepts a valid prefix by design: its acceptance is not compared with Parse's", "language comparison is limited to exponent magnitudes <= 10^4; range rejections beyond that are covered by the decimal-literal cases at both range ends"},
 		Floors:      []floor{{"decimal/", 60000}, {"binary/", 30000}, {"binary_exactly_representable", 5000}, {"range/accepted", 1500}, {"range/rejected", 15000}, {"language/accepted", 10000}, {"language/rejected", 20000}, {"language_compared_with_math_big", 40000}, {"entry_point_calls", 150000}},
 		LevelText:   "Runtime monitoring of the parser against exact literal values and against math/big's parser as a reference for the accepted language; grammar-aware fuzzing for totality.",
@@ -162,7 +162,7 @@ var props = map[string]*propCfg{
 		DesignRef:   "DESIGN.md §4 C13",
 	},
 	"C11": {
-		Rule:        "Values (1..3 000 digits incl. interior and trailing zero words, exponents from MinExp to MaxExp, both signs, zeros, infinities) built through five routes (raw words with extra low zero words, parser, arithmetic, reused longer buffer, plain) are printed with Text/Append in e, E, f (|exponent| < 5 000), g, G, p at precision -1, with b, MarshalText and json.Marshal; the text must (1) carry exactly the oracle's significant digits, MinPrec of them (first through last non-zero digit of the mantissa part; not for b/JSON), (2) parse back (Parse base 10 / SetString / UnmarshalText / json.Unmarshal) into receivers of precision max(1,MinPrec), +1 and +40, any mode, dirty or fresh, to exactly x's value and sign incl. -0 and +-Inf, comparing equal to x. x unchanged. Non-trivial = finite values. Added in later rounds: Append into buffers with spare capacity, the MarshalText result overwritten by its owner before the next call, a second formatting after an in-place update of interior mantissa words. Round 6: the shared exponent generator also draws +-10^j and its neighbours (where the printed exponent gains or loses a digit).",
+		Rule:        "Values (1..3 000 digits incl. interior and trailing zero words, exponents from MinExp to MaxExp, both signs, zeros, infinities) built through five routes (raw words with extra low zero words, parser, arithmetic, reused longer buffer, plain) are printed with Text/Append in e, E, f (|exponent| < 5 000), g, G, p at precision -1, with b, MarshalText and json.Marshal; the text must (1) carry exactly the oracle's significant digits, MinPrec of them (first through last non-zero digit of the mantissa part; not for b/JSON), (2) parse back (Parse base 10 / SetString / UnmarshalText / json.Unmarshal) into receivers of precision max(1,MinPrec), +1 and +40, any mode, dirty or fresh, to exactly x's value and sign incl. -0 and +-Inf, comparing equal to x. x unchanged. Non-trivial = finite values. Added in later rounds: Append into buffers with spare capacity, the MarshalText result overwritten by its owner before the next call, a second formatting after an in-place update of interior mantissa words. Round 6: the shared exponent generator also draws +-10^j and its neighbours (where the printed exponent gains or loses a digit). Round 7: one mantissa of 66 000 .. 72 000 words (1.3 million digits) per run, printed (e, g or MarshalText), compared digit for digit and read back.",
 		Assumptions: []string{"'f' output is generated only for |exponent| < 5 000 (it materialises the exponent)"},
 		Floors:      []floor{{"format/e/finite", 8000}, {"format/f/finite", 5000}, {"format/g/finite", 8000}, {"format/p/finite", 8000}, {"format/b/finite", 8000}, {"format/JSON/finite", 8000}, {"format/MarshalText/finite", 8000}, {"round_trips", 250000}, {"route/low-zero-words", 10000}},
 		LevelText:   "Runtime round-trip monitoring (metamorphic): print, check the digits against the exact value, parse back at three precisions.",
@@ -194,7 +194,7 @@ var props = map[string]*propCfg{
 		DesignRef:   "DESIGN.md §4 C10",
 	},
 	"C18": {
-		Rule:        "Workers built with -race and -tags verif, once with the assembly kernels and once with the portable ones (decimal_pure_go: the race detector sees into them). Per shard (4 shards = 4 different operand/job tables): 35 shared operands (5..6 000 digits, +-0, +-Inf, 1, integers filling their mantissa, values in the top and bottom decade of the exponent range, zeros and an infinity in variables that held finite values) and a table of 520 jobs of 27 kinds: readers of shared operands (Add, Sub, Mul, squaring, Quo incl. 100..200-word divisors, FMA, Sqrt, Cmp, Text, Format, Float64/32, Float, Int, Rat, GobEncode, MarshalText, Set; precisions to 4 000) and writers into the goroutine's own receiver from shared or constant arguments (Parse of decimal and binary literals, gob round trip, SetRat, SetInt, SetFloat64, SetFloat, fmt with zero- and space-padded wide fields, Int of values far longer than their mantissa, the accumulation a.FMA(x, y, a)). Before anything else runs in the process, the first job of every kind is executed by 8 goroutines released together (cold start). Then the table is computed sequentially twice (determinism, getters do not write; operands compared bit for bit incl. the leftover exponent of zeros and infinities). Then, per repetition (4 quick / 60 thorough), four configurations (GOMAXPROCS, goroutines) = (2,4), (4,16), (16,16), (16,64) run the jobs in per-goroutine random order, each goroutine writing only to its own receivers; in every other configuration the verif hooks poison the scratch pool and inject Gosched / 0..50 us sleeps / runtime.GC() (empties the pool) at the pool get/put sites. Oracles: (1) the race detector: any report block is a violation (deduplicated by the outermost frames of the two accesses); (2) every concurrent result must equal the sequential one; (3) operand snapshots before/after. Evidence counts operation intervals from different goroutines that overlapped on a common operand (atomic busy masks recorded at the client boundary), distinct overlapping (kind, kind) pairs, hook calls, injected yields and GC cycles, pool gets, Karatsuba and recursive-division entries. A case = one configuration run; all are non-trivial. Round 6: a large-buffer phase (shared operands of 70 000 .. 1 000 000 digits built from words; Mul, Sqr, Quo, Text, MarshalText, Format, Gob, Cmp, Int run by 4 goroutines, pairs on the same job at the same time: scratch of a megabyte and more, digit buffers beyond 64 KiB); the library's hit counters are plain increments in race builds, so that they are not a synchronisation point at every hook site (an atomic counter hid a race next to the pool sites in two runs out of three).",
+		Rule:        "Workers built with -race and -tags verif, once with the assembly kernels and once with the portable ones (decimal_pure_go: the race detector sees into them). Per shard (4 shards = 4 different operand/job tables): 35 shared operands (5..6 000 digits, +-0, +-Inf, 1, integers filling their mantissa, values in the top and bottom decade of the exponent range, zeros and an infinity in variables that held finite values) and a table of 520 jobs of 27 kinds: readers of shared operands (Add, Sub, Mul, squaring, Quo incl. 100..200-word divisors, FMA, Sqrt, Cmp, Text, Format, Float64/32, Float, Int, Rat, GobEncode, MarshalText, Set; precisions to 4 000) and writers into the goroutine's own receiver from shared or constant arguments (Parse of decimal and binary literals, gob round trip, SetRat, SetInt, SetFloat64, SetFloat, fmt with zero- and space-padded wide fields, Int of values far longer than their mantissa, the accumulation a.FMA(x, y, a)). Before anything else runs in the process, the first job of every kind is executed by 8 goroutines released together (cold start). Then the table is computed sequentially twice (determinism, getters do not write; operands compared bit for bit incl. the leftover exponent of zeros and infinities). Then, per repetition (4 quick / 60 thorough), four configurations (GOMAXPROCS, goroutines) = (2,4), (4,16), (16,16), (16,64) run the jobs in per-goroutine random order, each goroutine writing only to its own receivers; in every other configuration the verif hooks poison the scratch pool and inject Gosched / 0..50 us sleeps / runtime.GC() (empties the pool) at the pool get/put sites. Oracles: (1) the race detector: any report block is a violation (deduplicated by the outermost frames of the two accesses); (2) every concurrent result must equal the sequential one; (3) operand snapshots before/after. Evidence counts operation intervals from different goroutines that overlapped on a common operand (atomic busy masks recorded at the client boundary), distinct overlapping (kind, kind) pairs, hook calls, injected yields and GC cycles, pool gets, Karatsuba and recursive-division entries. A case = one configuration run; all are non-trivial. Round 6: a large-buffer phase (shared operands of 70 000 .. 1 000 000 digits built from words; Mul, Sqr, Quo, Text, MarshalText, Format, Gob, Cmp, Int run by 4 goroutines, pairs on the same job at the same time: scratch of a megabyte and more, digit buffers beyond 64 KiB); the library's hit counters are plain increments in race builds, so that they are not a synchronisation point at every hook site (an atomic counter hid a race next to the pool sites in two runs out of three). Round 7: a pool-churn phase (16 goroutines, quotients of short values by shared divisors of 8 192 .. 9 000 words: three large scratch buffers per quotient at a high rate) with an ownership table kept by the pool hook - a buffer handed out while it is still out is a violation whether or not a result shows it; the overlap statistics are atomics and are kept only in the delay-injecting configurations.",
 		Assumptions: []string{"the race detector only sees the interleavings that occurred: the claim is 'no race on the K overlapping operations observed', not schedule coverage", "the monitor's own state is atomics only; hooks are installed while no goroutine runs"},
 		Floors:      []floor{{"overlapping_operations_on_a_shared_operand", 5000}, {"distinct_overlapping_operation_pairs", 100}, {"concurrent_operations", 100000}, {"hook_calls_at_pool_sites", 10000}, {"injected_gc_cycles", 50}, {"hit_karatsuba", 1000}, {"hit_div_recursive", 100}, {"config/", 64}},
 		Variants: []variant{
